@@ -133,12 +133,25 @@ func loadEngine(repo string, harnessRoot string, pkgPaths []string, opts options
 	if err != nil {
 		return nil, err
 	}
-	for _, pp := range pkgPaths {
-		rel := strings.TrimPrefix(pp, modulePath+"/")
-		dir := filepath.Join(harnessRoot, rel)
+	// every harness directory is overlaid (a harness may use the exported helpers of another package's harness)
+	var hdirs []string
+	filepath.Walk(harnessRoot, func(path string, info os.FileInfo, err error) error {
+		if err == nil && info.IsDir() && path != harnessRoot {
+			ents, _ := os.ReadDir(path)
+			for _, ent := range ents {
+				if strings.HasSuffix(ent.Name(), ".go") {
+					hdirs = append(hdirs, path)
+					break
+				}
+			}
+		}
+		return nil
+	})
+	for _, dir := range hdirs {
+		rel, _ := filepath.Rel(harnessRoot, dir)
 		ents, err := os.ReadDir(dir)
 		if err != nil {
-			return nil, fmt.Errorf("no harness dir for %s: %v", pp, err)
+			return nil, err
 		}
 		pkgName := ""
 		for _, ent := range ents {
@@ -155,7 +168,7 @@ func loadEngine(repo string, harnessRoot string, pkgPaths []string, opts options
 			}
 		}
 		if pkgName == "" {
-			return nil, fmt.Errorf("no harness files in %s", dir)
+			continue
 		}
 		overlay[filepath.Join(repo, rel, "zz_verif_shim.go")] = []byte(strings.ReplaceAll(string(shim), "PACKAGE", pkgName))
 	}
